@@ -9,6 +9,7 @@ import math
 
 import numpy as np
 
+from vmon import own
 from vmon import faults
 from vmon import refmodel as R
 from vmon import world
@@ -41,7 +42,8 @@ REQUIRED = dict(monitors=['restricted-equals-full', 'restricted-grid-is-subset',
                          'sliding-window-same-size', 'request:own-full', 'request:foreign-same-ends-and-count',
                          'request:foreign-shifted-same-count', 'request:own-sub-range', 'request:foreign-random',
                          'requested-order:ascending', 'requested-order:descending', 'requested-order:shuffled',
-                         'emission:same-size-window', 'emission:star-written-between-evaluations'])
+                         'emission:same-size-window', 'emission:star-written-between-evaluations',
+                         'request:work-array-refilled-in-place'])
 CUT = math.exp(-10.0)
 
 
@@ -424,6 +426,8 @@ def wl_opacity(ctx, rng):
     kinds += [extra[k] for k in rng.integers(0, len(extra), int(rng.integers(1, 5)))]
     kinds = [kinds[k] for k in rng.permutation(len(kinds))]
     done = []
+    led = own.Ledger(ctx, 'opacity-requests')
+    work = {}                   # the caller's work arrays, one per length: refilled in place for the next request
     for kind in kinds:
         if kind == 'own-sub-range':
             i0 = int(rng.integers(0, len(wn) - 1))
@@ -448,7 +452,14 @@ def wl_opacity(ctx, rng):
         if not np.any((wn >= grid.min()) & (wn <= grid.max())):
             ctx.event('domain-skip:request-contains-no-native-point')
             continue
+        if len(grid) in work and rng.random() < 0.7:
+            grid = led.refill(work[len(grid)], grid)
+            ctx.observe('request:work-array-refilled-in-place')
+        else:
+            work[len(grid)] = grid
+        led.lend(grid, 'requested grid')
         judge_request(ctx, op, t, p, grid, fullv, wn, layout, kind)
+        led.settle('request ' + kind)
         ctx.observe('request:' + kind)
         done.append(kind)
     again = np.array(op.opacity(t, p))
